@@ -60,6 +60,9 @@ def semtok_oracle(text, lexline, result, legend, adm):
         return [] if result is None else [f'document has {len(errs)} lexical error(s) but the result is not null']
     if result is None:
         return []   # (a null for a valid document is caught by the correspondence)
+    # the lexemes the ranges must cover are those of the document text: the comments by the lexical rules themselves
+    cv = lexcheck.comment_oracle(text, toks, errs)
+    if cv: return cv
     dec = decode(result)
     if dec is None:
         return ['data length is not a multiple of 5']
